@@ -36,6 +36,12 @@ def points3d(rng, V, tris, n, lattice=False):
     k3 = n - k1 - k2
     i, j, k = (rng.integers(len(V), size=k3) for _ in range(3))
     q = np.column_stack((V[i, 0], V[j, 1], V[k, 2]))
+    # on the axis-parallel lines through vertices (two coordinates shared with the *same* vertex)
+    same = rng.random(k3) < 0.3
+    ax = rng.integers(3, size=k3)
+    for a_ in range(3):
+        m = same & (ax != a_)
+        q[m, a_] = V[i[m], a_]
     if lattice:
         # half-lattice offsets on a random subset of coordinates, >= 0.25 cell from the surface in that axis
         off = rng.choice([0.0, 0.5, -0.5, 0.25], size=(k3, 3)) * (rng.random((k3, 3)) < 0.6)
